@@ -82,7 +82,22 @@ func verifC02NewTxScene(ne, home int, conc int) *verifC02TxScene {
 			}
 			plan := verifChoice("layoutPlan", verifParam("layoutPlans", verifC02NumLayouts))
 			withHash := verifChoice("frameHash", verifParam("hashModes", 2)) == 1
-			t.data = a.txDataPayload(t.sig, "txData", verifParam("dataLen", 3), plan, withHash)
+			// 1..maxSigs signatures; in the multi-frame layouts the first frame either holds the count,
+			// all signatures and its share of the message (0), or ends right after the first signature
+			// (1), inside the second signature (2), or right after the last signature (3)
+			sigs := []solana.Signature{sig}
+			for j := 1; j < 1+verifChoice("extraSignatures", verifParam("maxSigs", 2)); j++ {
+				sigs = append(sigs, solana.Signature{0: 0x51, 1: byte(j), 40: verifU8("extraSigByte"), 63: 0x52})
+			}
+			firstFrame := -1
+			if plan >= verifC02TwoFrames {
+				cuts := []int{-1, verifC02TxHead, verifC02TxHead + 17, 1 + 64*len(sigs)}
+				if len(sigs) == 1 {
+					cuts = cuts[:2]
+				}
+				firstFrame = cuts[verifChoice("firstFrameCut", verifParam("cutModes", len(cuts)))%len(cuts)]
+			}
+			t.data = a.txDataPayloadCut(sigs, "txData", verifParam("dataLen", 3), plan, withHash, firstFrame)
 			t.meta = a.payload("txMeta", verifParam("metaLen", 3)*(verifChoice("metaPresent", verifParam("metaModes", 2))+2-verifParam("metaModes", 2)), (plan+2)%verifC02NumLayouts, withHash)
 			a.txs = append(a.txs, a.addTx(t))
 			sc.a, sc.t = a, t
